@@ -15,7 +15,7 @@ HARNESS = ["storage/zz_verif_c05_test.go", "storage/zz_verif_c05_export.go"]
 IAM_PKG = "auth/api/iam"
 IAM_HARNESS = ["auth/api/iam/zz_verif_c05_test.go", "auth/api/iam/zz_verif_c05b_test.go", "storage/zz_verif_c05_export.go"]
 VCI_PKG = "vcr/issuer"
-VCI_HARNESS = ["vcr/issuer/zz_verif_c05_test.go", "storage/zz_verif_c05_export.go"]
+VCI_HARNESS = ["vcr/issuer/zz_verif_c05_test.go", "vcr/issuer/zz_verif_c05b_test.go", "storage/zz_verif_c05_export.go"]
 HARNESSES = [(PKG, HARNESS, "c05"), (IAM_PKG, IAM_HARNESS, "c05iam"), (VCI_PKG, VCI_HARNESS, "c05vci")]
 
 BURN = {"code", "reqobj", "vpnonce", "redirect", "preauth"}
@@ -34,7 +34,10 @@ REQUIRED = ["at_most_once_atomic", "at_most_one_success_atomic", "at_most_one_su
             "fact_form_sources", "fact_form_tables", "code_dead_after_any_attempt", "vp_nonce_dead_after_any_response", "refused_grant_touches_nothing",
             "handleCode_refines_thread", "token_endpoint_at_most_once_all_schedules",
             "s2s_envelope_accepted_only_if_all_fresh", "s2s_nonce_no_replay_within_ttl", "vp_nonce_accepted_only_if_common",
-            "request_object_dead_after_any_fetch", "landing_token_dead_after_use", "dpop_refusal_registers_nothing", "dpop_jti_replay_refused", "dpop_jti_no_replay_within_ttl"]
+            "request_object_dead_after_any_fetch", "landing_token_dead_after_use", "dpop_refusal_registers_nothing", "dpop_jti_replay_refused", "dpop_jti_no_replay_within_ttl",
+            # OpenID4VCI request level + landing-page refinement (Props/C05Vci.lean)
+            "fact_vci_sources", "fact_vci_tables", "preauth_code_dead_after_any_attempt", "preauth_honoured_at_most_once_in_any_history",
+            "preauth_honoured_only_if_live_and_own", "preauth_dead_code_issues_nothing", "handleLanding_refines_thread", "landing_page_at_most_once_all_schedules"]
 
 
 def oracle(op, line, facts):
@@ -196,9 +199,69 @@ def forms_oracle(op, line, facts):
     return bad
 
 
+def vforms_oracle(op, line, facts):
+    """direct oracle on a sequence of issuing calls / token requests served by the real OpenID4VCI issuer (op "vforms")"""
+    bad = []
+    m = re.match(r"vforms ans=(.*) live=\[(.*)\] at=\[(.*)\] cn=\[(.*)\]$", line)
+    reqs = op["reqs"]
+    if not m or len(m.group(1).split(";")) != len(reqs):
+        return [("C05:vforms:unparsable-output", line[:200])]
+    ans = m.group(1).split(";")
+    where = "vci:" + op.get("backend", "?")
+    ttl = facts.get("vciTokenTTL", 0)
+    live = set(filter(None, m.group(2).split(",")))
+    now, t = 0, []
+    for r in reqs:
+        now += r.get("dt", 0) if op.get("backend") == "redis" else 0
+        t.append(now)
+    flow_iss, flow_t = {}, {}      # flow id -> issuer / time of the successful Store
+    issued = {}                    # code -> (index, time, flow) of the last successful StoreReference
+    attempts = {}                  # code -> indices of token requests since that issuance
+    honoured_flows = []
+    for j, (r, a) in enumerate(zip(reqs, ans)):
+        if r["t"] == "flow":
+            if a == "ok":
+                flow_iss[r.get("id", "")], flow_t[r.get("id", "")] = r.get("issuer"), t[j]
+            continue
+        if r["t"] == "ref":
+            if a == "ok":
+                issued[r["code"]] = (j, t[j], r.get("flow", ""))
+                attempts[r["code"]] = []
+            continue
+        c = r["code"]
+        if a.startswith("200:"):
+            fl = a[4:]
+            honoured_flows.append(fl)
+            if c not in issued:
+                bad.append((f"C05:preauth:{where}:vform-honoured-never-issued", f"request {j}: pre-authorized code {c!r} was never issued"))
+            else:
+                i0, t0, f0 = issued[c]
+                if fl != f0:
+                    bad.append((f"C05:preauth:{where}:vform-honoured-wrong-flow", f"request {j}: code {c!r} was issued for flow {f0!r}, the tokens refer to {fl!r}"))
+                if t[j] - t0 > ttl:
+                    bad.append((f"C05:preauth:{where}:vform-honoured-after-ttl", f"request {j}: code {c!r} issued at t={t0} honoured at t={t[j]}"))
+                for i in attempts.get(c, []):
+                    sig = "vform-two-requests-honoured" if ans[i].startswith("200:") else "vform-honoured-after-earlier-attempt"
+                    bad.append((f"C05:preauth:{where}:{sig}", f"request {j} was honoured with pre-authorized code {c!r} after request {i} (answer {ans[i]}) had presented it"))
+            if fl in flow_iss and flow_iss[fl] != r.get("at"):
+                bad.append((f"C05:preauth:{where}:vform-honoured-at-other-issuer", f"request {j}: flow {fl!r} belongs to {flow_iss[fl]!r}, honoured at {r.get('at')!r}"))
+        attempts.setdefault(c, []).append(j)
+    # a code that was presented after its (last) issuance is gone at the end, whatever the answers were
+    for c, idx in attempts.items():
+        if idx and any(x.startswith("code/" + c + "=") for x in live):
+            bad.append((f"C05:preauth:{where}:vform-code-alive-after-attempt", f"requests {idx} presented pre-authorized code {c!r} (answers {[ans[i] for i in idx]}); it is still stored at the end"))
+    # tokens are issued by honoured requests only, one access token and one c_nonce each
+    for name, grp in (("access-token", m.group(3)), ("c_nonce", m.group(4))):
+        have = Counter(filter(None, grp.split(",")))
+        may = Counter(honoured_flows)
+        if any(have[f] > may[f] for f in have):
+            bad.append((f"C05:preauth:{where}:vform-token-without-honoured-request", f"{name} references at the end {dict(have)}, honoured requests per flow {dict(may)}"))
+    return bad
+
+
 def run(ctx):
     facts = ctx.facts() or {}
-    thms = ctx.build_and_audit(["NutsProofs.Props.C05", "NutsProofs.Props.C05Forms"])
+    thms = ctx.build_and_audit(["NutsProofs.Props.C05", "NutsProofs.Props.C05Forms", "NutsProofs.Props.C05Vci"])
     for r in REQUIRED:
         if not any(t.endswith("Props." + r) for t in thms):
             ctx.oblige("thm-present:" + r, False, "theorem missing or its module does not build")
@@ -261,7 +324,7 @@ def run(ctx):
         bad += [base + k for k in b1]
 
     # ---- direct property oracle on the implementation's own outputs
-    n_bad, seen, n_window, n_cross, n_forms = 0, set(), 0, 0, 0
+    n_bad, seen, n_window, n_cross, n_forms, n_vforms = 0, set(), 0, 0, 0, 0
     form_answers, form_kinds = Counter(), Counter()
     lw = Counter()
     kinds, sizes, backends, succ_hist = Counter(), Counter(), Counter(), Counter()
@@ -294,6 +357,19 @@ def run(ctx):
                     seen.add(sig)
                     ctx.violation(sig, f"the {op['kind']} secret was honoured a second time after hostile requests (authorization responses, token requests, request-object "
                                   f"fetches, landing page) had named every '/'-tail of and '../'-path to every session-store key: {line}", re.sub(r"[^A-Za-z0-9_.-]", "_", sig) + ".jsonl", ops[i])
+            continue
+        if op.get("op") == "vforms":
+            n_vforms += 1
+            for a in line.split(" live=")[0][len("vforms ans="):].split(";"):
+                form_answers["vci:" + (a.split("|")[-1][:40] if not a.startswith("200") else "200")] += 1
+            for r in op["reqs"]:
+                form_kinds["vci:" + r["t"]] += 1
+            for sig, what in vforms_oracle(op, line, facts):
+                n_bad += 1
+                if sig in seen:
+                    continue
+                seen.add(sig)
+                ctx.violation(sig, f"{what}; sequence {op['scn']}: {line[:300]}", re.sub(r"[^A-Za-z0-9_.-]", "_", sig) + ".jsonl", ops[i])
             continue
         if op.get("op") == "forms":
             n_forms += 1
@@ -366,6 +442,8 @@ def run(ctx):
     ctx.cov["hostile_response_probes"] = n_cross
     ctx.cov["request_sequences"] = n_forms
     ctx.oblige("forms-leg-ran", bool(ctx.replay) or n_forms >= 100, f"{n_forms} request sequences")
+    ctx.cov["vci_request_sequences"] = n_vforms
+    ctx.oblige("vforms-leg-ran", bool(ctx.replay) or n_vforms >= 100, f"{n_vforms} OpenID4VCI call sequences")
     ctx.cov["input_distribution"] = {"threads_per_run": dict(sorted(sizes.items())), "kinds": dict(kinds), "backends": dict(backends),
                                      "success_count_histogram": dict(succ_hist), "distinct_runs": len(distinct),
                                      "form_requests": dict(form_kinds), "form_answers": dict(form_answers)}
